@@ -41,7 +41,12 @@ func runC12(r *fw.Run, p *fw.Program) {
 	{
 		sc := r.Scratch()
 		runC03(sc, p)
-		r.Import(sc, "C03.addchild", "C12.unique", "AddChild links the parent and refuses a duplicate struct field name with a no-return arm, keeping ByName and Children together: a path names at most one value (C03.addchild obligations)", 3, nil)
+		r.Import(sc, "C03.addchild", "C12.unique", "AddChild links the parent and refuses a duplicate struct field name with a no-return arm, keeping ByName and Children together: a path names at most one value (C03.addchild obligations); Value.Parent is written by AddChild only", 6, nil)
+		c12ParentOwner(r.Rule("C12.unique", "", 0), p)
+		// the name a child is filed under is the name valuePath reports; Remove takes out exactly the removed value and its own ByName entry
+		r.Import(sc, "C03.byname", "C12.byname", "every ByName insert/delete is keyed by the Name of the very value inserted/removed and Remove filters Children by identity: .[name] of the remaining children still answers with the child reporting that name (C03.byname obligations)", 5, nil)
+		// postProcess numbers children through Walk: it must reach every child of the start root, the start value itself, and call back after the children when asked to
+		r.Import(sc, "C03.walk", "C12.walk", "Walk visits every element of Children from 0, calls Fn after the children unless PreOrder, skips under OneRoot exactly nested roots other than the start value, wrappers pass the constants of their names: postProcess's numbering reaches every compound of the root (C03.walk obligations)", 7, nil)
 	}
 	// a user field named like an extkey must not shadow navigation, and vice versa: layering helper decides every return
 	c08KeyLayerAs(r, p, "C12.layer")
@@ -369,20 +374,39 @@ func c12Path(r *fw.Run, p *fw.Program) {
 			ru.Undecided("append-shape", p.Rel(call.Pos()), "append is not append([]any{component}, parts...)")
 			continue
 		}
-		e := a.of(elem)
-		switch {
-		case f[isArr]:
-			key = "array-parent"
-			if ru.Check(e == "X.Index", key, p.Rel(call.Pos()), "under an array parent the component is X.Index", "under an array parent the component is "+e+", expected X.Index") {
-				idxApp = call
+		// the component may be chosen first and prepended once (`comp := v.Name; if IsArray { comp = v.Index }`):
+		// one case per incoming edge of the choice
+		type compCase struct {
+			e string
+			f map[string]bool
+		}
+		cases := []compCase{{a.of(elem), f}}
+		if ph, ok := c12StripIface(elem).(*ssa.Phi); ok && ph != x && ph != parts {
+			cases = nil
+			for i, ev := range ph.Edges {
+				ef := a.edgeFacts(ph.Block().Preds[i], ph.Block())
+				for k2 := range f {
+					ef[k2] = true
+				}
+				cases = append(cases, compCase{a.of(ev), ef})
 			}
-		case f["!"+isArr]:
-			key = "struct-parent"
-			if ru.Check(e == "X.Name", key, p.Rel(call.Pos()), "under a struct parent the component is X.Name", "under a struct parent the component is "+e+", expected X.Name") {
-				nameApp = call
+		}
+		for _, cc := range cases {
+			e, f := cc.e, cc.f
+			switch {
+			case f[isArr]:
+				key = "array-parent"
+				if ru.Check(e == "X.Index", key, p.Rel(call.Pos()), "under an array parent the component is X.Index", "under an array parent the component is "+e+", expected X.Index") {
+					idxApp = call
+				}
+			case f["!"+isArr]:
+				key = "struct-parent"
+				if ru.Check(e == "X.Name", key, p.Rel(call.Pos()), "under a struct parent the component is X.Name", "under a struct parent the component is "+e+", expected X.Name") {
+					nameApp = call
+				}
+			default:
+				ru.Fail("append-guard", p.Rel(call.Pos()), "path component "+e+" chosen under {"+c12FactList(f)+"}, not under IsArray of the parent compound of the walked value")
 			}
-		default:
-			ru.Fail("append-guard", p.Rel(call.Pos()), "path component "+e+" chosen under {"+c12FactList(f)+"}, not under IsArray of the parent compound of the walked value")
 		}
 	}
 	if idxApp == nil {
@@ -455,7 +479,8 @@ func c12FreshSingleton(v ssa.Value) (ssa.Value, bool) {
 // C12.resolve: how a path component is resolved back to a child
 
 func c12Resolve(r *fw.Run, p *fw.Program) {
-	ru := r.Rule("C12.resolve", "array index i resolves to Children[i], struct key k to ByName[k], and .[]/paths pair each child with its own position (arrays) or own Name (structs); makeDecodeValueOut dispatches on IsArray", 5)
+	ru := r.Rule("C12.resolve", "array index i resolves to Children[i], struct key k to ByName[k], and .[]/paths pair each child with its own position (arrays) or own Name (structs); makeDecodeValueOut dispatches on IsArray; gojq's index bound JQValueSliceLen is len(Children) and JQValueIndex answers null only for its negative markers; the field-presence closures answer ByName membership / 0<=i<len(Children); the layering helpers prefer the value's own field; JQValueKeys lists each child's own component", 14)
+	c12ResolveMore(ru, p)
 	kind, ok := c12KindValue(p)
 	if !ok {
 		ru.Undecided("anchor", "", "constant interp.decodeValueValue not found")
@@ -717,7 +742,7 @@ func c12PostProcessClosure(p *fw.Program) (*ssa.Function, *ssa.Function) {
 }
 
 func c12Index(r *fw.Run, p *fw.Program) {
-	ru := r.Rule("C12.index", "Value.Index is written only by postProcess; there every child of an array gets Index = its position (loop from 0 over the whole final Children, never skipped, after any reordering), struct children and the compound itself get -1, and no compound leaves without it; Children is only changed by AddChild/Remove and Remove only by decoders", 14)
+	ru := r.Rule("C12.index", "Value.Index is written only by postProcess; there every child of an array gets Index = its position (loop from 0 over the whole final Children, never skipped, after any reordering), struct children and the compound itself get -1, and no compound leaves without it; Children is only changed by AddChild/Remove and Remove only by decoders; the walk is post-order (a compound resets its own Index before its parent numbers it)", 15)
 	valT := p.NamedType("pkg/decode", "Value")
 	iIndex := c12Field(valT, "Index")
 	pp, cl := c12PostProcessClosure(p)
@@ -725,6 +750,7 @@ func c12Index(r *fw.Run, p *fw.Program) {
 		ru.Undecided("anchor", "", "decode.Value.Index / (*Value).postProcess / its walk callback not resolvable")
 		return
 	}
+	c12WalkOrder(ru, p, pp)
 	// ownership
 	inPP := map[*ssa.Function]bool{}
 	for _, f := range fw.WithClosures(pp) {
@@ -1351,7 +1377,7 @@ func c12InClosureOf(fn, top *ssa.Function) bool {
 // C12.bufroot: which sub-decodes start a new buffer root
 
 func c12BufRoot(r *fw.Run, p *fw.Program) {
-	ru := r.Rule("C12.bufroot", "a sub-decode is marked as buffer root (Options.IsRoot) exactly when it reads another bit buffer than the calling decoder's own; the top-level decode of interp is a root", 7)
+	ru := r.Rule("C12.bufroot", "a sub-decode is marked as buffer root (Options.IsRoot) exactly when it reads another bit buffer than the calling decoder's own; the top-level decode of interp is a root; sub-decoders and values the field API builds are marked IsRoot exactly when their reader is not the decoder's own buffer", 14)
 	optT := p.NamedType("pkg/decode", "Options")
 	iRoot := c12Field(optT, "IsRoot")
 	dec, pub := p.Fn("pkg/decode.decode"), p.Fn("pkg/decode.Decode")
@@ -1359,6 +1385,7 @@ func c12BufRoot(r *fw.Run, p *fw.Program) {
 		ru.Undecided("anchor", "", "decode.Options.IsRoot / decode.decode / decode.Decode not found")
 		return
 	}
+	c12BufRootMakers(ru, p)
 	for _, fn := range p.FqFunctions() {
 		n := 0
 		for _, c := range fw.CallsIn(fn) {
@@ -1545,8 +1572,10 @@ func init() {
 
 	add("C12-post-decode-cond", "C12.post", ddec, "\t\tif opts.IsRoot {\n\t\t\td.Value.postProcess()", "\t\tif opts.IsRoot && opts.FillGaps {\n\t\t\td.Value.postProcess()", "through:decode")
 	add("C12-post-fill-after", "C12.post", ddec, "\t\tif opts.IsRoot {\n\t\t\td.Value.postProcess()\n\t\t}\n", "\t\tif opts.IsRoot {\n\t\t\td.Value.postProcess()\n\t\t}\n\t\tif opts.FillGaps {\n\t\t\td.FillGaps(ranges.Range{Start: 0, Len: decodeRange.Len}, \"late\")\n\t\t}\n", "last:pkg/decode.decode")
-	add("C12-post-nested-missing", "C12.post", ddec, "\tc := &Compound{IsArray: false}\n\tcd := d.fieldDecoder(name, br, c)\n\tcd.Value.IsRoot = true\n\td.AddChild(cd.Value)\n\tfn(cd)\n\n\tcd.Value.postProcess()\n", "\tc := &Compound{IsArray: false}\n\tcd := d.fieldDecoder(name, br, c)\n\tcd.Value.IsRoot = true\n\td.AddChild(cd.Value)\n\tfn(cd)\n\n", "through:(*pkg/decode.D).FieldStructRootBitBufFn")
-	add("C12-post-callback-after", "C12.post", ddec, "\tc := &Compound{IsArray: true}\n\tcd := d.fieldDecoder(name, br, c)\n\tcd.Value.IsRoot = true\n\td.AddChild(cd.Value)\n\tfn(cd)\n\n\tcd.Value.postProcess()\n", "\tc := &Compound{IsArray: true}\n\tcd := d.fieldDecoder(name, br, c)\n\tcd.Value.IsRoot = true\n\td.AddChild(cd.Value)\n\tcd.Value.postProcess()\n\tfn(cd)\n\n", "last:(*pkg/decode.D).FieldArrayRootBitBufFn")
+	const rootHead = "\tcd := d.fieldDecoder(name, br, c)\n\tcd.Value.IsRoot = true\n\td.AddChild(cd.Value)\n\t// also post process partial tree if fn panics with a decode error,\n\t// walk of the parent root do not descend into this root\n"
+	add("C12-post-nested-missing", "C12.post", ddec, "\tc := &Compound{IsArray: false}\n"+rootHead+"\tdefer cd.Value.postProcess()\n\tfn(cd)\n", "\tc := &Compound{IsArray: false}\n"+rootHead+"\tfn(cd)\n", "through:(*pkg/decode.D).FieldStructRootBitBufFn")
+	add("C12-post-callback-after", "C12.post", ddec, "\tc := &Compound{IsArray: true}\n"+rootHead+"\tdefer cd.Value.postProcess()\n\tfn(cd)\n", "\tc := &Compound{IsArray: true}\n"+rootHead+"\tcd.Value.postProcess()\n\tfn(cd)\n", "last:(*pkg/decode.D).FieldArrayRootBitBufFn")
+	add("C12-post-abort-skips", "C12.post", ddec, "\tc := &Compound{IsArray: false}\n"+rootHead+"\tdefer cd.Value.postProcess()\n\tfn(cd)\n", "\tc := &Compound{IsArray: false}\n"+rootHead+"\tfn(cd)\n\tcd.Value.postProcess()\n", "abort:(*pkg/decode.D).FieldStructRootBitBufFn")
 
 	add("C12-post-late-closure", "C12.post", "format/tls/tls.go", "\t\treturn format.TCP_Stream_Out{InArg: tc}\n", "\t\treturn format.TCP_Stream_Out{InArg: tc, PostFn: func(any) { d.FieldValueStr(\"late\", \"x\") }}\n", "late:TCP_Stream_Out.PostFn:format/tls.decodeTLS#2")
 	add("C12-bufroot-bitbuf", "C12.bufroot", ddec, "\t\tFillGaps:    true,\n\t\tIsRoot:      true,", "\t\tFillGaps:    true,\n\t\tIsRoot:      false,", "TryFieldFormatBitBuf")
@@ -1566,6 +1595,33 @@ func init() {
 	add("C12-expr-unescaped", "C12.expr", ijq, `"\"\(_escape_ident)\""`, `"\"\(.)\""`, "_path_to_expr:quoted")
 	add("C12-expr-no-null", "C12.expr", ijq, `_eval("null | path(\(.))"; {})`, `_eval("path(\(.))"; {})`, "_expr_to_path")
 	add("C12-expr-brackets", "C12.expr", ijq, "        ( (\"[\" | _ansi_if($opts; \"array\"))\n        , _ansi_if($opts; \"number\")\n        , (\"]\" | _ansi_if($opts; \"array\"))", "        ( (\"[\" | _ansi_if($opts; \"array\"))\n        , (\"]\" | _ansi_if($opts; \"array\"))\n        , _ansi_if($opts; \"number\")", "_path_to_expr:index")
-	add("C12-expr-string-cond", "C12.expr", ijq, `if . == "" or _is_ident then _ansi_if($opts; "objectkey")`, `if . == "" or _is_ident or _is_string then _ansi_if($opts; "objectkey")`, "_path_to_expr:unquoted:_is_string")
+	add("C12-expr-string-cond", "C12.expr", ijq, `elif _is_ident then _ansi_if($opts; "objectkey")`, `elif _is_ident or _is_string then _ansi_if($opts; "objectkey")`, "_path_to_expr:unquoted:_is_string")
+	add("C12-expr-leading-and", "C12.expr", ijq, `if length == 0 or (.[0] | type) != "string" then`, `if length > 0 and (.[0] | type) != "string" then`, "_path_to_expr:leading")
+	add("C12-expr-leading-extra", "C12.expr", ijq, `if length == 0 or (.[0] | type) != "string" then`, `if length == 1 or (.[0] | type) != "string" then`, "_path_to_expr:leading")
+	add("C12-expr-stages", "C12.expr", ijq, "  | map(\n      if _is_number then", "  | .[1:]\n  | map(\n      if _is_number then", "_path_to_expr:stages")
+	add("C12-expr-colour", "C12.expr", ijq, "def _path_to_expr: _path_to_expr(null);", "def _path_to_expr: _path_to_expr({color: true});", "_path_to_expr/0:plain")
+	add("C12-expr-ansi-if-else", "C12.expr", "pkg/interp/ansi.jq", "def _ansi_if($opts; $name):\n  if $opts.color then", "def _ansi_if($opts; $name):\n  if $opts.color | not then", "_ansi_if")
+	add("C12-expr-is-number", "C12.expr", ijq, `def _is_number: type == "number";`, `def _is_number: type == "number" or type == "null";`, "def:_is_number")
+	add("C12-jqkeys-decode-value-swapped", "C12.jqkeys", djq, "  if _is_decode_value then f\n  else ef", "  if _is_decode_value then ef\n  else f", "def:_decode_value/2")
+
+	add("C12-resolve-index-marker", "C12.resolve", idec, "\tif index < 0 {\n\t\treturn nil\n\t}\n\treturn makeDecodeValue((v.Compound.Children)[index]", "\tif index <= 0 {\n\t\treturn nil\n\t}\n\treturn makeDecodeValue((v.Compound.Children)[index]", "array-index-marker")
+	add("C12-resolve-slicelen", "C12.resolve", idec, "func (v ArrayDecodeValue) JQValueSliceLen() any { return len(v.Compound.Children) }", "func (v ArrayDecodeValue) JQValueSliceLen() any { return len(v.Compound.Children) - 1 }", "array-len:JQValueSliceLen")
+	add("C12-resolve-struct-key-has", "C12.resolve", idec, "\t\t\t\treturn false\n\t\t\t}\n\t\t\tif v.Compound.ByName != nil {\n\t\t\t\tif _, ok := v.Compound.ByName[stringKey]; ok {", "\t\t\t\treturn false\n\t\t\t}\n\t\t\tif v.Compound.ByName != nil {\n\t\t\t\tif _, ok := v.Compound.ByName[stringKey]; !ok {", "struct-key-has")
+	add("C12-resolve-array-has", "C12.resolve", idec, "return intKey >= 0 && intKey < len(v.Compound.Children)", "return intKey > 0 && intKey < len(v.Compound.Children)", "array-has")
+	add("C12-resolve-array-has-upper", "C12.resolve", idec, "return intKey >= 0 && intKey < len(v.Compound.Children)", "return intKey >= 0 && intKey <= len(v.Compound.Children)", "array-has")
+	add("C12-resolve-array-keys", "C12.resolve", idec, "\t\tvs[i] = i\n", "\t\tvs[i] = i + 1\n", "array-keys")
+	add("C12-resolve-struct-keys", "C12.resolve", idec, "\t\tvs[i] = f.Name\n", "\t\tvs[i] = f.Description\n", "struct-keys")
+	add("C12-resolve-fallback-key", "C12.resolve", idec, "\tv := valueHas(name)\n\tif b, ok := v.(bool); ok && b {", "\tv := valueHas(name)\n\tif b, ok := v.(bool); ok && !b {", "fallback-key")
+	add("C12-resolve-fallback-has", "C12.resolve", idec, "\tv := valueHas(key)\n\tif b, ok := v.(bool); ok && !b {", "\tv := valueHas(key)\n\tif b, ok := v.(bool); ok && b {", "fallback-has")
+	add("C12-index-preorder", "C12.index", dval, "if err := v.WalkRootPostOrder(func(v *Value, _ *Value, _ int, _ int) error {\n\t\tswitch vv := v.V.(type) {", "if err := v.WalkRootPreOrder(func(v *Value, _ *Value, _ int, _ int) error {\n\t\tswitch vv := v.V.(type) {", "walk-order")
+	add("C12-byname-remove-key", "C12.byname", dval, "delete(fv.ByName, v.Name)", "delete(fv.ByName, p.Name)", "delete-key")
+	add("C12-walk-skips-start", "C12.walk", dval, "if opts.OneRoot && wv != v && wv.IsRoot {", "if opts.OneRoot && wv.IsRoot {", "Walk:one-root-skip")
+	add("C12-walk-post-before-children", "C12.walk", dval, "\t\tif !opts.PreOrder {\n\t\t\terr := opts.Fn(wv, rootV, depth, rootDepth+rootDepthDelta)", "\t\tif opts.PreOrder {\n\t\t\terr := opts.Fn(wv, rootV, depth, rootDepth+rootDepthDelta)", "Walk:order")
+	add("C12-layer-extkey-first", "C12.layer", idec, "func (v StructDecodeValue) JQValueKey(name string) any {\n\treturn valueOrFallbackKey(", "func (v StructDecodeValue) JQValueKey(name string) any {\n\tif bv := v.decodeValueBase.JQValueKey(name); bv != nil {\n\t\treturn bv\n\t}\n\treturn valueOrFallbackKey(", "returns:StructDecodeValue.JQValueKey")
+	add("C12-unique-parent-rehang", "C12.unique", ddec, "\tv.Name = name\n\tv.RootReader = d.bitBuf\n\tv.Range = ranges.Range{Start: firstBit, Len: nBits}\n\td.AddChild(v)\n", "\tv.Name = name\n\tv.RootReader = d.bitBuf\n\tv.Range = ranges.Range{Start: firstBit, Len: nBits}\n\td.AddChild(v)\n\tv.Parent = d.Value.Parent\n", "parent-owner:")
+	add("C12-bufroot-maker-unmarked", "C12.bufroot", ddec, "\tc := &Compound{IsArray: false}\n\tcd := d.fieldDecoder(name, br, c)\n\tcd.Value.IsRoot = true\n", "\tc := &Compound{IsArray: false}\n\tcd := d.fieldDecoder(name, br, c)\n", "maker:(*pkg/decode.D).FieldStructRootBitBufFn")
+	add("C12-bufroot-value-unmarked", "C12.bufroot", ddec, "\tv.RootReader = br\n\tv.IsRoot = true\n", "\tv.RootReader = br\n", "maker:(*pkg/decode.D).FieldRootBitBuf")
+	add("C12-bufroot-own-marked", "C12.bufroot", ddec, "\tc := &Compound{IsArray: true}\n\tcd := d.fieldDecoder(name, d.bitBuf, c)\n\td.AddChild(cd.Value)\n", "\tc := &Compound{IsArray: true}\n\tcd := d.fieldDecoder(name, d.bitBuf, c)\n\tcd.Value.IsRoot = true\n\td.AddChild(cd.Value)\n", "maker:(*pkg/decode.D).FieldArray")
+	add("C12-unique-errorf", "C12.unique", ddec, "d.Fatalf(\"%q already exist in struct %s\", v.Name, d.Value.Name)", "d.Errorf(\"%q already exist in struct %s\", v.Name, d.Value.Name)", "AddChild:duplicate-test")
 	add("C12-expr-wrapper", "C12.expr", "pkg/interp/funcs.jq", "def expr_to_path: _expr_to_path;", "def expr_to_path: _path_to_expr;", "def:expr_to_path")
 }
